@@ -3,7 +3,7 @@ violation reporting, evidence files."""
 import fcntl, hashlib, json, os, re, shutil, subprocess, sys, time, atexit
 
 VERIF = os.path.dirname(os.path.dirname(os.path.abspath(__file__)))
-REPO = "/repo"
+REPO = os.environ.get("FEOX_REPO", "/repo")
 LEAN_DIR = os.path.join(VERIF, "lean")
 HARNESS_DIR = os.path.join(VERIF, "harness")
 DRV = os.path.join(LEAN_DIR, ".lake", "build", "bin", "feoxdrv")
